@@ -284,6 +284,11 @@ func c01Storm(r *Run, idx int) {
 	}
 	G := []int{4, 8, 16}[rng.Intn(3)]
 	rounds := r.Pick(40000, 400000)
+	scale := 1
+	if r.Args["racepass"] != "" || raceEnabled {
+		scale = 10 // under the race detector every Get costs an order of magnitude more
+		rounds /= scale
+	}
 	var wrong atomic.Int64
 	var first atomic.Value
 	// round-synchronised: in every round all goroutines Get the same (just deleted, so absent) key at the same
@@ -318,7 +323,7 @@ func c01Storm(r *Run, idx int) {
 	wg.Wait()
 	// free-running: no barrier between the Gets, so a load of a neighbour key can start while the waiters of the
 	// previous load are still picking up its result
-	free := r.Pick(30000, 300000)
+	free := r.Pick(30000, 300000) / scale
 	for g := 0; g < G; g++ {
 		wr := rand.New(rand.NewSource(rng.Int63()))
 		wg.Add(1)
